@@ -46,6 +46,15 @@ fn boundary_class(kind: &Kind, v: [f64; 3]) -> &'static str {
 fn values_for<T: Fl>(g: &Graph<T>, a: usize, dense: bool) -> Vec<[T; 3]> {
     let kind = g.nodes[a].kind;
     let mut out: Vec<[T; 3]> = kind.lattice(dense).into_iter().map(|v| [T::from64(v[0]), T::from64(v[1]), T::from64(v[2])]).collect();
+    if let Kind::Yxy(_) = kind {
+        // the shared lattice leaves out y = 0 with Y > 0 (not a physical stimulus); it is inside the
+        // documented ranges and exactly the case the valid-divisor guard of Yxy -> Xyz exists for
+        for x in [0.0, 0.15, 0.3127, 0.64, 1.0] {
+            for luma in [1e-9, 0.18, 0.5, 1.0] {
+                out.push([T::from64(x), T::from64(0.0), T::from64(luma)]);
+            }
+        }
+    }
     out.sort_by_key(|v| [v[0].bits64(), v[1].bits64(), v[2].bits64()]);
     out.dedup_by_key(|v| [v[0].bits64(), v[1].bits64(), v[2].bits64()]);
     out
